@@ -32,7 +32,7 @@ func (d *devWorld) race(ch *kernel.Chooser) string {
 	var cands []*devModel
 	for _, m := range d.devs {
 		c := w.Store.Clients[m.client]
-		if c != nil && time.Until(m.expires) > 5*time.Second && m.tokens == 0 && usableClient(w, m.client) && (c.Auth == oidc.AuthMethodBasic || c.Auth == oidc.AuthMethodNone) {
+		if c != nil && time.Until(m.expires) > 5*time.Second && m.tokens == 0 && usableClient(w, m.client) && c.Auth != oidc.AuthMethodPost && c.Auth != oidc.AuthMethodPrivateKeyJWT {
 			cands = append(cands, m)
 		}
 	}
